@@ -42,6 +42,26 @@ READER_SAMPLES = [
 ]
 
 
+# what each of READER_SAMPLES was built from (the tuple addfilter takes): a string is a string, a list is a list - for the kinds whose
+# builder tells them apart (header, address, envelope); exists, body and currentdate take their values flattened
+READER_EXPECTED = [
+    ("Subject", ":contains", "x y"),
+    (["To", "Cc"], ":is", ["a", "b"]),
+    ("To", ":matches", ["a", "b"]),
+    ("address", ":is", "from", "a@b.c"),
+    ("address", ":matches", ["from", "to"], ["*@b.c"]),
+    ("envelope", ":contains", ["to"], ["list"]),
+    ("envelope", ":is", ["from"], ["a", "b"]),
+    ("exists", "List-Id"),
+    ("exists", "A", "B"),
+    ("body", ":text", ":contains", "sale"),
+    ("body", ":raw", ":is", "a", "b"),
+    ("currentdate", ":zone", "+0100", ":is", "date", "2019-02-26"),
+    ("currentdate", ":zone", "+0100", ":value", "ge", "date", "2019-02-26"),
+    ("currentdate", ":zone", "-0500", ":count", "lt", "hour", "1", "2"),
+]
+
+
 def reader_eval(ctx, R, gc):
     """B1 by evaluation: get_filter_conditions interpreted over stand-in trees [K], [not, K] and [not, K, K'] for every negatable kind K
     and sample stored arguments.  What is read for `not K` must be what is read for K with the negation folded into the match-type tag
@@ -65,6 +85,8 @@ def reader_eval(ctx, R, gc):
         for k_, v_ in kw.items():
             env[k_] = v_
         sub = fd.Interp(m.node, k.name, oracle, loop_unroll=12, max_depth=4, max_paths=300)
+        sub.getattr_hook = getattr_hook
+        sub.record_types = rtypes
         rs = sub.run(env)
         out = []
         for p_ in rs:
@@ -106,6 +128,19 @@ def reader_eval(ctx, R, gc):
                     return fd.Inline(mod.funcs[fn.id])
         return None
 
+    def getattr_hook(interp, rec, e, st):
+        rc = prog.cls(rec.cls)
+        if rc is not None:
+            for k in prog.mro(rc):
+                m = k.methods.get(e.attr)
+                if m is not None and "property" in m.decorators:
+                    out = []
+                    for r_ in on_rec(rec, m, k, [], {}, st):
+                        out.append((r_, st) if isinstance(r_, fd.Exc) else (r_[0], st))
+                    return out
+        return [(fd.Unknown(norm(e)), st)]
+    rtypes = fd.record_types_of(cm, prog.module("factory"), prog.modules.get("tools"))
+
     def read(nodes):
         flt = fd.Rec("IfCommand", nodes=nodes, name="if")
         def orc(interp, e, name, recv, args, kw, st):
@@ -113,6 +148,8 @@ def reader_eval(ctx, R, gc):
                 return [(fd.Const(flt), None)]
             return oracle(interp, e, name, recv, args, kw, st)
         it = fd.Interp(gc.node, R.cls.name, orc, loop_unroll=6, max_depth=4, max_paths=300)
+        it.getattr_hook = getattr_hook
+        it.record_types = rtypes
         try:
             ps = it.run({gc.params[1]: fd.Const("f")})
         except (fd.TooManyPaths, RecursionError):
@@ -136,6 +173,9 @@ def reader_eval(ctx, R, gc):
             continue
         node = mk(kind, cls, a, x)
         plain, neg, seq = read([node]), read([nt, node]), read([nt, node, other])
+        exp_ = READER_EXPECTED[READER_SAMPLES.index((kind, cls, a, x))]
+        if isinstance(plain, list) and len(plain) == 1 and isinstance(plain[0], tuple) and plain[0] != exp_:
+            return ("bad", "a %s condition built from %r reads back as %r" % (kind, exp_, plain[0]), None, "model:reader-shape")
         if plain is None or neg is None or seq is None:
             return None
         for r_, what in ((plain, kind), (neg, "not " + kind)):
